@@ -61,6 +61,9 @@ def mc_for(ctx, prop):
     if prop == "C07":
         ctx.mc("MC_Reader", "MC_Reader_thorough.cfg" if big else "MC_Reader_quick.cfg", timeout=1500)
         ctx.mc("MC_Reader", "MC_Reader_pinned.cfg", expect_violation="InvNothingLeft")
+        # documented behaviour of the code (not a C07 violation: still an in-order slice): polling a socket stream that was cut inside
+        # a frame can deliver the frame nested in the unfinished frame's payload - TLC exhibits it on the machine
+        ctx.mc("MC_ReaderLemmas", "MC_ReaderLemmas_pollcut.cfg", expect_violation="LemmaPollCutSock")
     elif prop == "C08":
         ctx.mc("MC_Reader", "MC_Reader_quick.cfg", timeout=1500)
     elif prop == "C11":
